@@ -45,6 +45,9 @@ EXPLANATION += ' Added: (R8) no function reachable from the API switches the att
 TECHNIQUE += '; evaluation of the getters on model objects with pairwise different sources'
 EXPLANATION += ' R2 / R3 no longer compare the text of the returned expression: nelec, spinpol and charge are evaluated on model objects in which the orbitals, the stored values and the core charges all give different numbers (orbitals with and without occupations, none; core charges given, defaulted from the atomic numbers, absent).'
 # --- end metadata round-3 twins
+# --- metadata added after the round-4 refactoring twins
+EXPLANATION += ' R1: which per-atom arrays `natom` consults is found by evaluating the property on objects that hold exactly one array of seven rows (every field is tried), not by reading attribute names off its text.'
+# --- end metadata round-4 twins
 
 
 def run(ctx):
